@@ -293,7 +293,65 @@ func c14RootConfigs() []*world.Config {
 	return cs
 }
 
+// c14ExtraTrees: single larger trees whose roots are frozen too: framing of long bodies (> 127
+// bytes: two-byte uvarint lengths) and of nodes with more than 127 entries, the default branch factor.
+func c14ExtraTrees() map[string]*world.Config {
+	out := map[string]*world.Config{}
+	long := strings.Repeat("0123456789", 30)
+	for _, f := range []string{ref.FormatBinary, ref.FormatMarshaler} {
+		sf := shortFmtName(f)
+		out["130-entries-in-one-node-bf256/"+sf] = world.UintCfg(256, urange(1, 130), 1, f, "none")
+		out["300-byte-values/"+sf] = world.IntCfg(4, []int{1, 2, 3, 4, 5, 6}, []interface{}{long}, "", f, "none")
+		lk := world.StringCfg(2, []uint8{0, 1, 0}, f, "none")
+		for i := range lk.Keys {
+			lk.Keys[i] = lk.Keys[i].(string) + strings.Repeat("k", 200)
+		}
+		lk.Keys = sortKeysC14(lk)
+		out["200-byte-keys/"+sf] = lk
+		out["40-keys-default-bf16/"+sf] = world.UintCfg(16, urange(1, 40), 1, f, "none")
+	}
+	return out
+}
+
+func sortKeysC14(c *world.Config) []interface{} {
+	ks := append([]interface{}{}, c.Keys...)
+	sort.Slice(ks, func(i, j int) bool { return c.KS.Cmp(ks[i], ks[j]) < 0 })
+	return ks
+}
+
+// c14ExtraRoots builds each extra tree (all keys, first value) and returns name -> "link height size".
+func c14ExtraRoots(storeCheck func(cfg *world.Config, name string, b []byte)) (map[string]string, error) {
+	out := map[string]string{}
+	for name, cfg := range c14ExtraTrees() {
+		w, err := world.New(cfg)
+		if err != nil {
+			return nil, err
+		}
+		for k := range cfg.Keys {
+			if r := w.Apply(world.Op{Kind: world.OpIns, K: (k*7 + 3) % len(cfg.Keys), V: 0}); r.Err != nil || r.Panic != nil {
+				return nil, fmt.Errorf("%s: %v", name, r)
+			}
+		}
+		for k := range cfg.Keys { // any key the permutation missed
+			if _, ok := w.Model[0][k]; !ok {
+				w.Apply(world.Op{Kind: world.OpIns, K: k, V: 0})
+			}
+		}
+		r := w.Apply(world.Op{Kind: world.OpReload})
+		if r.Err != nil || r.Panic != nil {
+			return nil, fmt.Errorf("%s: %v", name, r)
+		}
+		for _, n := range w.Store.Names() {
+			b, _ := w.Store.Has(n)
+			storeCheck(cfg, n, b)
+		}
+		out[name] = fmt.Sprintf("%s %d %d", linkOf(r.Root), r.Root.Height, r.Root.Size)
+	}
+	return out, nil
+}
+
 type c14Golden struct {
+	Extra  map[string]string            `json:"extra_trees"`
 	Note   string                       `json:"note"`
 	Roots  map[string]map[string]string `json:"roots"`  // config -> contents -> "link height size"
 	Layers map[string]string            `json:"layers"` // type/bf -> digits
@@ -346,6 +404,9 @@ func c14Observe(storeCheck func(cfg *world.Config, name string, b []byte)) (*c14
 		return nil, err
 	}
 	g.Consts = c14Consts()
+	if g.Extra, err = c14ExtraRoots(storeCheck); err != nil {
+		return nil, err
+	}
 	return g, nil
 }
 
@@ -413,6 +474,23 @@ func C14(run *report.Run) {
 			}
 		}
 	}
+	for name, cfg := range c14ExtraTrees() {
+		evals++
+		var es []ref.Entry
+		for _, k := range cfg.Keys {
+			es = append(es, ref.Entry{K: k, V: cfg.Vals[0]})
+		}
+		ref.SortEntries(cfg.KS, es)
+		H := ref.CanonHeight(cfg.KS, es, cfg.BF)
+		want, err := codecFor(cfg).Encode(ref.BuildCanon(cfg.KS, es, cfg.BF, H), nil)
+		if err != nil {
+			run.HarnessError("ref encode %s: %v", name, err)
+			continue
+		}
+		if w := fmt.Sprintf("%s %d %d", want, H, len(es)); w != obs.Extra[name] {
+			acc.add(cfg, "C14", []explore.Finding{{Sig: "C14|root-differs-from-independent-encoder|" + shortFmtName(cfg.Format) + "|" + name[:strings.Index(name, "/")], What: "the root written for a larger tree differs from the independently re-implemented format", Detail: fmt.Sprintf("%s: implementation %q, reference %q", name, obs.Extra[name], w)}}, []string{name})
+		}
+	}
 	refL, _ := layerRows(refLayer)
 	for k, row := range obs.Layers {
 		evals += int64(len(row))
@@ -450,6 +528,11 @@ func C14(run *report.Run) {
 				if got, ok := obs.Roots[cfgName][cs]; !ok || got != want {
 					acc.add(cfgAll, "C14", []explore.Finding{{Sig: "C14|root-differs-from-golden-vector|" + fmtOfName(cfgName), What: "the root written for given entries differs from the frozen reference vector", Detail: fmt.Sprintf("%s %s: now %q, frozen %q", cfgName, cs, got, want)}}, []string{cfgName, cs})
 				}
+			}
+		}
+		for name, want := range g.Extra {
+			if obs.Extra[name] != want {
+				acc.add(cfgAll, "C14", []explore.Finding{{Sig: "C14|root-differs-from-golden-vector|" + name, What: "the root written for a larger tree differs from the frozen reference vector", Detail: fmt.Sprintf("%s: now %q, frozen %q", name, obs.Extra[name], want)}}, []string{name})
 			}
 		}
 		for k, want := range g.Layers {
